@@ -46,7 +46,7 @@ func init() {
 		Run:      run,
 		RlimitAS: 4 << 30,
 		Floors: func(t string) map[string]int64 {
-			return map[string]int64{"wkb.truncated": 1000, "wkb.bitflip": 1000, "wkb.count_inflated": 1000, "wkb.bad_type": 500, "wkb.bad_order": 500, "wkb.deep_nesting": 5, "wkb.random": 500, "wkb.long_count_bitflip": 1000, "wkb.long_count_wrapped": 500,
+			return map[string]int64{"wkb.truncated": 1000, "wkb.bitflip": 1000, "wkb.count_inflated": 1000, "wkb.bad_type": 500, "wkb.bad_order": 500, "wkb.deep_nesting": 5, "wkb.deep_nesting_ending_in_a_wrong_member": 50, "wkb.random": 500, "wkb.long_count_bitflip": 1000, "wkb.long_count_wrapped": 500,
 				"hex.malformed": 200, "json.grammar": 1000, "json.handbuilt": 200, "decoded.ok.refixpoint": 1000, "json.deep": 3}
 		},
 	})
@@ -488,9 +488,23 @@ func (e *env) wkbSpecial(r *gen.R) {
 				le = !le
 			}
 		}
-		// innermost: either nothing (truncated) or an empty collection
-		if r.Bool() && len(b)+9 <= 65536 {
-			b = append(b, 1, 7, 0, 0, 0, 0, 0, 0, 0)
+		// innermost: nothing (truncated), an empty collection, or a multi-geometry holding a member
+		// of the wrong type / with an unknown type code / a bad byte-order flag (each makes another
+		// kind of error travel back up through all the levels)
+		switch r.Intn(4) {
+		case 0:
+			if len(b)+9 <= 65536 {
+				b = append(b, 1, 7, 0, 0, 0, 0, 0, 0, 0)
+			}
+		case 1:
+			if len(b)+9+9 <= 65536 {
+				multi := byte(4 + r.Intn(3))                   // MultiPoint, MultiLineString, MultiPolygon
+				member := []byte{2, 3, 1, 7, 99, 1}[r.Intn(6)] // a type the multi cannot hold (or can: 1 in a MultiPoint needs 16 more bytes -> EOF)
+				order := []byte{1, 1, 1, 9}[r.Intn(4)]
+				b = append(b, 1, multi, 0, 0, 0, 1, 0, 0, 0)
+				b = append(b, order, member, 0, 0, 0, 0, 0, 0, 0)
+				e.c.Count("wkb.deep_nesting_ending_in_a_wrong_member")
+			}
 		}
 		e.c.Max("wkb.nesting_levels", float64(levels))
 		e.tryWKB("deep_nesting", b)
